@@ -784,3 +784,122 @@ func runResultPosition(p *Prog, r *Report) {
 	r.Counts["E14.forwarding-returns"] = n
 	r.Clauses = append(r.Clauses, "E14.result-position: a return that forwards a result of a self-recursive call in its own position forwards the recursive call's result in every position that is a variable")
 }
+
+// E4.P6-interface-compare — `a == b` on two interface values panics at run time when both
+// hold the same dynamic type and that type is not comparable (a slice type, a struct with a
+// map or slice field). For an interface of the module with such an implementer (schema.OneOf
+// is a slice, schema.Object has a map) the comparison is a latent panic; comparisons with nil
+// and with values of concrete comparable types are fine.
+func runInterfaceCompare(p *Prog, r *Report) {
+	n := 0
+	// module named types
+	var named []*types.Named
+	for _, pk := range p.Pkgs {
+		sc := pk.Types.Scope()
+		for _, nm := range sc.Names() {
+			if tn, ok := sc.Lookup(nm).(*types.TypeName); ok && !tn.IsAlias() {
+				if nt, ok := tn.Type().(*types.Named); ok {
+					named = append(named, nt)
+				}
+			}
+		}
+	}
+	uncomparableImpl := func(it *types.Interface) string {
+		for _, nt := range named {
+			if _, isIface := nt.Underlying().(*types.Interface); isIface {
+				continue
+			}
+			for _, t := range []types.Type{nt, types.NewPointer(nt)} {
+				if types.Implements(t, it) && !types.Comparable(t) {
+					return nt.Obj().Pkg().Name() + "." + nt.Obj().Name()
+				}
+			}
+		}
+		return ""
+	}
+	for _, fn := range p.Funcs {
+		if fn.Body == nil {
+			continue
+		}
+		info := fn.Info()
+		ast.Inspect(fn.Body, func(x ast.Node) bool {
+			if lit, ok := x.(*ast.FuncLit); ok && lit != fn.Lit {
+				return false
+			}
+			be, ok := x.(*ast.BinaryExpr)
+			if !ok || (be.Op != token.EQL && be.Op != token.NEQ) {
+				return true
+			}
+			if isNilIdent(info, be.X) || isNilIdent(info, be.Y) {
+				return true
+			}
+			tx, ty := info.TypeOf(be.X), info.TypeOf(be.Y)
+			if tx == nil || ty == nil {
+				return true
+			}
+			ix, okx := tx.Underlying().(*types.Interface)
+			iy, oky := ty.Underlying().(*types.Interface)
+			if !okx || !oky {
+				return true // one side concrete: the compiler demands it to be comparable
+			}
+			if tx.String() == "error" || ty.String() == "error" {
+				return true
+			}
+			n++
+			impl := uncomparableImpl(ix)
+			if impl == "" {
+				impl = uncomparableImpl(iy)
+			}
+			key := "compare " + exprStr(be)
+			if impl == "" {
+				r.Add("E4.P6-interface-compare", fn.Name, key, p.Pos(be), OK, "every module implementer of the interface is comparable", true)
+			} else {
+				r.Add("E4.P6-interface-compare", fn.Name, key, p.Pos(be), Violated,
+					"both operands are interface values and "+impl+" (an implementer) is not comparable: when both hold that type the comparison panics at run time (comparing uncomparable type)", true)
+			}
+			return true
+		})
+	}
+	r.Counts["E4.interface-comparisons"] = n
+	r.Clauses = append(r.Clauses, "E4.P6 no == / != between two interface values whose interface has a non-comparable implementer in the module")
+}
+
+// E11.key-reader — schema keys are written by DependencyKeys.MarshalJSON (whose attribute
+// entries carry fields — "expr":{"addr":…} / {"static":…} — that the reader type
+// schema.ExpressionValue does not declare: it has no json tags and no UnmarshalJSON) and read
+// back with encoding/json. The round trip only works with the tolerant reader: a decoder
+// configured with DisallowUnknownFields rejects every key that has an attribute dependency.
+// The rule forbids that configuration anywhere in the module and counts the key readers.
+func runKeyReader(p *Prog, r *Report) {
+	readers := 0
+	for _, fn := range p.Funcs {
+		if fn.Body == nil {
+			continue
+		}
+		info := fn.Info()
+		ast.Inspect(fn.Body, func(x ast.Node) bool {
+			if lit, ok := x.(*ast.FuncLit); ok && lit != fn.Lit {
+				return false
+			}
+			call, ok := x.(*ast.CallExpr)
+			if !ok {
+				return true
+			}
+			switch calleeFull(info, call) {
+			case "encoding/json.Unmarshal":
+				if len(call.Args) == 2 {
+					if t := info.TypeOf(call.Args[1]); t != nil && typeIs(derefType(t), "hcl-lang/schema", "DependencyKeys") {
+						readers++
+						r.Add("E11.key-reader", fn.Name, "json.Unmarshal into DependencyKeys", p.Pos(call), OK, "the tolerant reader: fields of the written key that the reader type does not declare are ignored", true)
+					}
+				}
+			case "(*encoding/json.Decoder).DisallowUnknownFields":
+				r.Add("E11.key-reader", fn.Name, "DisallowUnknownFields", p.Pos(call), Violated,
+					"a strict JSON decoder: schema keys carry fields (expr.addr / expr.static) that schema.ExpressionValue does not declare, so every key with an attribute dependency is rejected and its dependent body is lost", true)
+			}
+			return true
+		})
+	}
+	r.Counts["E11.key-readers"] = readers
+	r.Clauses = append(r.Clauses, "E11.key-reader: schema keys are decoded with the tolerant json.Unmarshal; no json.Decoder in the module is configured with DisallowUnknownFields")
+}
